@@ -72,6 +72,8 @@ def _drive(args):
     out = []
     for tid in ids:
         r = drv.rng(seed, 'c13', tid)
+        if tid % 7 == 3:
+            drv.hazard(r)
         n = 4 + tid % 9
         pin = ''.join(r.choice('0123456789') for _ in range(n))
         if tid % 5 == 0:
